@@ -76,6 +76,11 @@ func VerifC31Infer() {
 	m := zz.ParamInt("maxlen", 2)
 	raw := make([]string, k)
 	for i := range raw {
+		if zz.ParamInt("pool", 0) == 1 {
+			// cells drawn by the solver from a pool of shapes that matter to the inference
+			raw[i] = zz.OneOf("cell", "", "0", "1", "7", "-3", "+5", "true", "FALSE", "1.5", "x", "1e3", "9223372036854775808")
+			continue
+		}
 		raw[i] = zz.String("cell", zz.Len("len", m))
 		if zz.ParamInt("ascii", 0) == 1 {
 			for j := 0; j < len(raw[i]); j++ {
